@@ -26,7 +26,7 @@ from ..core import R, dec_arr, drive_enum, drive_hypothesis
 PROP = "C17"
 RULE = ("Generator: xarray.Dataset of 2..6 equally shaped 2-D layers, H,W in 1..8 (1..12 thorough), ~80% non-square; layers float64/float32 "
         "(NaN at densities none/one cell/~15%/~50%) and/or int8..int64/uint8/uint16, values from a 1..4 letter alphabet out of small-int, signed, "
-        "halves, non-float32, big-int and signed-zero palettes (ties between layers everywhere); variable names inserted in non-alphabetical "
+        "halves, non-float32, big-int, signed-zero and near-tie (1.0 vs 1.0000000000000002 vs 1.000001) palettes (ties between layers everywhere); variable names inserted in non-alphabetical "
         "order; data_vars None or an ordered subset (>= 2 layers, any order) drawn independently for the operators without and with a reference "
         "layer; ref_var at any position of the dataset, integer dtype, values in 1..k (k = number of selected data layers); per-layer memory "
         "layout C / Fortran / step-2 strided view / negative-stride view / slice of an (H,W,3) cube, in the classes allC, allF, mixed C+F, "
@@ -59,6 +59,8 @@ PALETTES_F = {
     "halves": S.PAL_HALVES,
     "nonf32": S.PAL_NONF32,
     "szero": [0.0, -0.0, 1.0, -1.0],
+    # near-but-unequal neighbours of the small integers a reference layer holds (1..k) and of each other: "equal" means ==
+    "near": [1.0, 1.0000000000000002, 1.000001, 0.9999999, 2.0, 2.00001, 1.9999999999999998, 3.0, 3.0000000001, 1e-9, 0.0, 0.30000000000000004, 0.3],
     "big": S.PAL_BIGINT,
 }
 PALETTES_I = {"small": [0, 1, 2, 3], "signed": S.PAL_SIGNED, "big": S.PAL_BIGINT, "onetwo": [1, 2]}
